@@ -19,7 +19,7 @@ sys.set_int_max_str_digits(0)
 # theorems about tables / model that hold whether or not the listed findings are repaired
 THEOREMS = ["expr_sem_except_known", "bool_sem_except_known", "division_is_c_division_on_naturals", "prec_table_documented",
             "every_operator_production_has_a_row", "print_parse", "consts_resolve", "stmt_sem_except_known",
-            "stmt_never_mistranslated", "unsupported_refused_except_known", "section_options_refuted", "exactly_one_command",
+            "stmt_never_mistranslated", "keyblob_resolves", "unsupported_refused_except_known", "section_options_refuted", "exactly_one_command",
             "blob_load_refuted"]
 # findings whose state is visible in the extracted tables: (refutation theorem + its proof file) while the defect is in the
 # source, (full theorem from tools/props/c19_alt/, compiled in coq/Cases) once the tables show the repair
@@ -293,10 +293,7 @@ def cz(n):
 
 
 def coq_ln(bs):
-    bs = bytes(bs)
-    if len(bs) > 24:      # one hexadecimal literal elaborates much faster than a long list of numerals
-        return f"(le_enc {len(bs)} (Z.to_N 0x{int.from_bytes(bs, 'little'):x}))"
-    return "[" + "; ".join(f"{b}%N" for b in bs) + "]"
+    return "[" + "; ".join(f"{b}%N" for b in bytes(bs)) + "]"
 
 
 def coq_str(s):
@@ -1192,26 +1189,21 @@ def norm_impl_config(c):
     return (opts, srcs, kbs, secs)
 
 
-def untext(z):
-    """one number (little-endian base 256, closed by a digit 1) -> bytes"""
-    bs = z.to_bytes((z.bit_length() + 7) // 8, "little")
-    assert bs[-1:] == b"\x01", z
-    return bs[:-1]
-
-
 def mv_dval(v):
-    kind, x = v[1][0][1], v[1][1][1]
-    if kind == 0:
+    t, x = v
+    if t == "i":
         return ("i", x)
-    if kind == 1:
-        return ("s", untext(x).decode("latin-1"))
-    if kind == 2:
-        return ("n", untext(x).decode("latin-1"))
-    return ("b", untext(x).hex())
+    if t == "s":
+        return ("s", x)
+    if t == "b":
+        return ("b", x.hex())
+    if t == "l" and len(x) == 1 and x[0][0] == "s":
+        return ("n", x[0][1])
+    raise ValueError(v)
 
 
 def mv_dict(v):
-    return tuple(sorted((untext(kv[1][0][1]).decode("latin-1"), mv_dval(kv[1][1])) for kv in v[1]))
+    return tuple(sorted((kv[1][0][1], mv_dval(kv[1][1])) for kv in v[1]))
 
 
 def mv_opt(v):
@@ -1222,9 +1214,9 @@ def norm_model_config(v):
     o, s, k, secs = v[1]
     oo, ss, kk = mv_opt(o), mv_opt(s), mv_opt(k)
     opts = None if oo is None else tuple(sorted((e[1][0][1], mv_dval(e[1][1])) for e in oo[1]))
-    srcs = None if ss is None else tuple(sorted((e[1][0][1], untext(e[1][1][1]).decode("latin-1")) for e in ss[1]))
+    srcs = None if ss is None else tuple(sorted((e[1][0][1], e[1][1][1]) for e in ss[1]))
     kbs = None if kk is None else tuple((("i", e[1][0][1]), (mv_dict(e[1][1]),)) for e in kk[1])
-    sections = tuple((("i", e[1][0][1]), tuple(((untext(c[1][0][1]).decode("latin-1"), mv_dict(c[1][1])),) for c in e[1][1][1])) for e in secs[1])
+    sections = tuple((("i", e[1][0][1]), tuple(((c[1][0][1], mv_dict(c[1][1])),) for c in e[1][1][1])) for e in secs[1])
     return (opts, srcs, kbs, sections)
 
 
@@ -1234,10 +1226,10 @@ def mv_payload(v):
     kind = v[1][0][1]
     f = [x[1] for x in v[1][1:]]
     if kind == 1:
-        return ("bytes", untext(f[0]))
+        return ("bytes", f[0])
     if kind == 2:
-        return ("wrap", {"key": untext(f[0]).hex(), "counter": untext(f[1]).hex(), "start": f[2], "end": f[3]}, untext(f[4]))
-    return ("enc", {"key": untext(f[0]).hex(), "counter": untext(f[1]).hex(), "start": f[2], "end": f[3], "swap": bool(f[4])}, f[5], untext(f[6]))
+        return ("wrap", {"key": f[0].hex(), "counter": f[1].hex(), "start": f[2], "end": f[3]}, f[4])
+    return ("enc", {"key": f[0].hex(), "counter": f[1].hex(), "start": f[2], "end": f[3], "swap": bool(f[4])}, f[5], f[6])
 
 
 def model_cmds(v):
@@ -1320,8 +1312,8 @@ UNSUPPORTED = [
 def build_streams(tier, rng):
     g = Gen(rng, tier)
     thorough = tier == "thorough"
-    n_main = 1500 if thorough else 260
-    n_feat = 200 if thorough else 40
+    n_main = 3000 if thorough else 260
+    n_feat = 300 if thorough else 40
     streams = {}
     main = []
     for i in range(n_main):
@@ -1349,7 +1341,7 @@ def build_streams(tier, rng):
 
 def expression_cases(tier, rng, g):
     """Single constant definitions: deep expression trees printed minimally / fully / with redundant parentheses."""
-    n = 3000 if tier == "thorough" else 500
+    n = 5000 if tier == "thorough" else 500
     out = []
     for i in range(n):
         depth = rng.choice([1, 2, 3, 4, 5, 6])
@@ -1587,6 +1579,22 @@ def compare_model(ir, mv):
     return None
 
 
+def eval_model(terms, tier):
+    """vm_compute of every term, in groups; a group that fails (time-out under load, ...) is retried once in smaller shards."""
+    out = []
+    group = 1200
+    for k in range(0, len(terms), group):
+        part = terms[k:k + group]
+        try:
+            out += vlib.run_model_cases(f"c19g{k // group}", "Coq.Strings.String Value Bytes GenBd BdModel", part,
+                                        shard=60 if tier == "quick" else 100, timeout=900, jobs=8)
+        except RuntimeError as ex:
+            vlib.log(f"  model evaluation of group {k // group} failed once ({str(ex)[:200]}); retrying in smaller shards")
+            out += vlib.run_model_cases(f"c19r{k // group}", "Coq.Strings.String Value Bytes GenBd BdModel", part,
+                                        shard=25, timeout=1500, jobs=6)
+    return out
+
+
 def correspondence(rep, rng, tier, streams, exprs, model_ok, mout, g):
     cases = []      # dict(stream, kind, text, extern, program, coq, feature_stream)
     for name, ps in streams.items():
@@ -1628,7 +1636,7 @@ def correspondence(rep, rng, tier, streams, exprs, model_ok, mout, g):
             p = {"blocks": [("options", [])], "sections": [(("lit", 0, "d"), [st])], "extern": [], "files": {}, "filedata": {}}
             cases.append(dict(stream="memory names (exhaustive over the legacy table)", kind="program",
                               text=program_text(p, rng, "min", "lines"), extern=[], program=p, coq=coq_program(p)))
-    ntok = 1500 if tier == "thorough" else 300
+    ntok = 3000 if tier == "thorough" else 300
     for _ in range(ntok):
         text, toks = token_case(rng, g)
         cases.append(dict(stream="token sequences through the precedence parser", kind="tokens",
@@ -1649,8 +1657,7 @@ def correspondence(rep, rng, tier, streams, exprs, model_ok, mout, g):
     model_vals = None
     if model_ok:
         try:
-            model_vals = vlib.run_model_cases("c19", "Coq.Strings.String Value Bytes GenBd BdModel", [c["coq"] for c in cases], shard=60 if tier == "quick" else 120,
-                                              timeout=1200, jobs=8)
+            model_vals = eval_model([c["coq"] for c in cases], tier)
         except Exception as ex:  # noqa
             rep.obligation("correspondence:model evaluation", False, repr(ex))
     else:
@@ -1835,6 +1842,8 @@ def _run(rep, rng, tier):
         vlib.log(f"  note: the tables extracted from the source show {fid} repaired: proving {full} instead of its refutation")
         check_alt_theorem(rep, full, built or model_ok)
     vlib.audit(rep)
+    if tier == "thorough" and built and hasattr(vlib, "coqchk"):
+        vlib.coqchk(rep, PID, theorems)
     # (T2) cases
     streams, g = build_streams(tier, rng)
     exprs = expression_cases(tier, rng, g)
